@@ -25,15 +25,15 @@
 (*                                                                         *)
 (* Rows are judged chunk by chunk: stage 0 -> a chunk is chosen -> its rows *)
 (* are read -> they are judged: one line is printed per failing row        *)
-(*   <<"BAD", id, law, class of input, class of output, fields changed>>   *)
-(* and records the number of failing rows in bad.  All failing rows are    *)
-(* listed, so that each can be classified.                                 *)
+(*   "BAD|id|law|class of input|class of output|fields changed|"           *)
+(* and one line "CHUNK|chunk|rows judged|rows failing|" per chunk.         *)
+(* All failing rows are listed, so that each can be classified.            *)
 (***************************************************************************)
 EXTENDS Integers, Sequences, FiniteSets, TLC, Json
 
 CONSTANT NChunks   \* the recording is split into floatlit_rec_1.ndjson .. floatlit_rec_<NChunks>.ndjson
 
-FL == INSTANCE FloatLit WITH AsImplemented <- FALSE, Emit <- FALSE, ChunkSize <- 256, ChunkStride <- 1,
+FL == INSTANCE FloatLit WITH AsImplemented <- FALSE, Emit <- FALSE, ChunkSize <- 256, ChunkStride <- 1, Walk <- FALSE,
                              Kinds <- {}, stage <- 0, job <- [kind |-> "none", p |-> 0], pat <- <<>>
 
 \* read once per chunk (TLC does not cache the value of an operator that reads a file)
@@ -51,6 +51,10 @@ Diff(k, a, b) ==
        \o ",lo:" \o FieldDiff("double", SubSeq(a, 65, 128), SubSeq(b, 65, 128))
   ELSE FieldDiff(k, a, b)
 
+\* one line per failing row (a single string: TLC wraps long tuples over several lines)
+Bad(id, law, cin, cout, diff) ==
+  PrintT("BAD|" \o ToString(id) \o "|" \o law \o "|" \o cin \o "|" \o cout \o "|" \o diff \o "|")
+
 \* number of failures of row r (0 or 1); prints the failure
 Judge(r) ==
   LET k == r.kind
@@ -60,27 +64,30 @@ Judge(r) ==
       outS == IF IsHex(r.out) THEN FL!FloatDenoteHex(k, Lit(r.out)) ELSE outL
       \* class of the input as spelled (x86_fp80: before LLVM's canonicalisation)
       inRaw == IF IsHex(r.in) /\ inS.ok THEN FL!FloatRawHex(k, Lit(r.in)).bits ELSE inL.bits
-  IN IF IsHex(r.in) /\ inS # inL THEN (IF PrintT(<<"SPECDIFF", r.id, "in">>) THEN 0 ELSE 0)
-     ELSE IF IsHex(r.out) /\ outS # outL THEN (IF PrintT(<<"SPECDIFF", r.id, "out">>) THEN 0 ELSE 0)
-     ELSE IF ~outS.ok THEN (IF PrintT(<<"BAD", r.id, "printed-rejected", FL!Class(k, inRaw), "", "">>) THEN 1 ELSE 1)
+  IN IF IsHex(r.in) /\ inS # inL THEN (IF PrintT("SPECDIFF|" \o ToString(r.id) \o "|in|") THEN 0 ELSE 0)
+     ELSE IF IsHex(r.out) /\ outS # outL THEN (IF PrintT("SPECDIFF|" \o ToString(r.id) \o "|out|") THEN 0 ELSE 0)
+     ELSE IF ~outS.ok THEN (IF Bad(r.id, "printed-rejected", FL!Class(k, inRaw), "", "") THEN 1 ELSE 1)
      ELSE IF inS.bits # outS.bits
-          THEN (IF PrintT(<<"BAD", r.id, "bits-changed", FL!Class(k, inRaw), FL!Class(k, outS.bits),
-                            Diff(k, inS.bits, outS.bits)>>) THEN 1 ELSE 1)
+          THEN (IF Bad(r.id, "bits-changed", FL!Class(k, inRaw), FL!Class(k, outS.bits),
+                       Diff(k, inS.bits, outS.bits)) THEN 1 ELSE 1)
      ELSE 0
-
-RECURSIVE CountBad(_, _)
-CountBad(rows, n) == IF n = 0 THEN 0 ELSE Judge(rows[n]) + CountBad(rows, n - 1)
 
 VARIABLES stg, chunk, rows, bad
 vars == <<stg, chunk, rows, bad>>
 
-\* the rows are held in a variable while they are judged, so that the file is read once
+\* The rows are held in a variable while they are judged, so that the file is read once (TLC
+\* re-evaluates a LET or an operator that reads a file at every use).
 Init == stg = 0 /\ chunk = 0 /\ rows = <<>> /\ bad = 0
 Next == \/ stg = 0 /\ chunk' \in 1..NChunks /\ stg' = 1 /\ UNCHANGED <<rows, bad>>
         \/ stg = 1 /\ rows' = RowsOf(chunk) /\ stg' = 2 /\ UNCHANGED <<chunk, bad>>
-        \/ stg = 2 /\ bad' = CountBad(rows, Len(rows)) /\ rows' = <<>> /\ stg' = 3 /\ UNCHANGED chunk
+        \/ stg = 2 /\ bad' = Cardinality({i \in 1..Len(rows) : Judge(rows[i]) = 1})
+                   /\ PrintT("CHUNK|" \o ToString(chunk) \o "|" \o ToString(Len(rows)) \o "|" \o ToString(bad') \o "|")
+                   /\ rows' = <<>> /\ stg' = 3 /\ UNCHANGED chunk
 Spec == Init /\ [][Next]_vars
 
-\* the property on the recording: no row changes its bits
+\* The property on the recording: no row changes its bits.  It is deliberately NOT listed as
+\* an INVARIANT in FloatLitTrace.cfg: with -continue TLC would print, for every failing chunk,
+\* a trace holding all rows of the chunk (tens of megabytes).  The verdict is the list of BAD
+\* lines; the CHUNK lines let the harness check that every row was judged.
 AllPreserved == bad = 0
 =============================================================================
